@@ -131,3 +131,7 @@ def work_convert(x):
     except BaseException as exc:
         raise TaskFailed('wrapped', x) from exc
     return ('done', x)
+
+
+class CallbackError(Exception):
+    """Raised by a result callback and listed in callbacks_propagate."""
